@@ -1,4 +1,4 @@
-SOURCE_COMMITS = ['c5d9560', '265a34c', '1141073', '47656a5', '5687be7']
+SOURCE_COMMITS = ['c5d9560', '265a34c', '1141073', '47656a5', '5687be7', '820b000']
 
 TB = ('Trusted: rustc MIR construction, std, and the pinned dependencies (Cargo.lock digest recorded in evidence); '
       'virtual calls dispatch to local impls; no unsafe code (checked on every run). ')
@@ -28,6 +28,10 @@ CHECKS = [
   'technique': 'MIR provenance analysis of the payload string + guard-set/format-template check of the print site',
   'text': 'The OP_RETURN payload on the Bitcoin path must derive from the decoded push instruction after OP_RETURN (never from a fixed byte offset, which cannot be right for all four push encodings), through strict UTF-8 with empty default; the fork path uses the Data token of the template; the single println is guarded exactly by is-OpReturn and non-empty and prints height, txid and the payload verbatim inside forward loops.',
   'note': TB + 'UTF-8 decoding in std and rust-bitcoin instruction decoding trusted.'},
+ {'id': 'C04', 'design_ref': 'DESIGN.md §3 C04, §4',
+  'technique': 'exhaustive truth-table evaluation of the extracted status filter + information-flow (dependency set) argument on MIR',
+  'text': 'Two necessary conditions: the status filter guarding the height-map insertion, extracted from MIR and evaluated over all 256 status-bit assignments, admits only records with HAVE_DATA and without FAILED bits (and admits validated stored blocks); and the record kept per height must depend on prev-hash linkage — the checker computes the dependency set and collision policy of the insertion and reports that no chain walk exists. The second is a genuine defect of the pinned tree and is listed as an open known finding with a semantic key.',
+  'note': TB + 'Core status-bit meaning (chain.h) and LevelDB key order trusted. The open finding C04.select is reported as KNOWN-FINDING; any other policy/dependency set is a new violation.'},
 ]
 
 NOT_APPLICABLE = []
